@@ -65,6 +65,13 @@ func (plugin *RetryPlugin) OnResponse(
 			}
 		}
 
+		if retryState.attemptsLeft < 1 {
+			// No attempts to hand out (e.g. `attempts: 0`): never ask for
+			// more retries than configured
+			plugin.cache.Del(onResponse.SequenceID)
+			return &actions.NoOpAction{}, nil
+		}
+
 		lunarRetryAfterValue := fmt.Sprint(retryState.nextCooldownSeconds)
 		action := actions.ModifyResponseAction{
 			HeadersToSet: map[string]string{
